@@ -1,4 +1,5 @@
 import Model.Murmur
+import Model.MurmurPlaced
 import Model.Token
 import Model.Routing
 import Model.RoutingNames
@@ -232,8 +233,8 @@ def canonical (bs : List UInt8) : Bool :=
   lessm <a> <b>           → Less of two VALID (canonical decimal int64) Murmur3 token strings; lessmx: any strings
   hlessm <k1> <k2>        → Less of the Murmur3 tokens of two keys; hlessr <d1> <k1> <d2> <k2>: Random
   ringsort m|r|o …        → the token ring order -/
-def step (_ : Unit) (ws : List String) : Unit × String :=
-  ((), match ws with
+def stepU (ws : List String) : String :=
+  match ws with
   | ["murmur", h] => match parseHex h with
       | some bs => toString (Murmur.murmur3H1 bs).toInt
       | none => "bad-op"
@@ -296,7 +297,67 @@ def step (_ : Unit) (ws : List String) : Unit × String :=
   | "rkey" :: cs => match cs.mapM parseHex with
       | some l => toHex (Token.routingKey l)
       | none => "bad-op"
-  | _ => "bad-op")
+  | _ => "bad-op"
+
+/-! ### placement of the arguments in memory (harness/cmd/c09/placed.go): a trailing word `@<src><off>.<spare>.<fill>` -/
+
+structure Pl where
+  off : Nat
+  spare : Nat
+  fill : UInt8
+
+def parsePl (w : String) : Option Pl :=
+  if w.startsWith "@" then
+    match ((w.drop 2).toString.splitOn ".") with
+    | [o, sp, f] => do
+        let o ← o.toNat?
+        let sp ← sp.toNat?
+        let f ← parseHex f
+        match f with
+        | [b] => if o < 16 then some ⟨o, sp, b⟩ else none
+        | _ => none
+    | _ => none
+  else none
+
+/-- the argument at word index `i` as it lies in the harness's buffer: `(off + 5*(i-1)) mod 16` foreign bytes before it
+    (the address of the first byte modulo 16), `spare` bytes of capacity and 16 more foreign bytes behind -/
+def placeArg (pl : Pl) (i : Nat) (key : List UInt8) : Murmur.Placed.Slice :=
+  Murmur.Placed.place (List.replicate ((pl.off + 5*(i-1)) % 16) pl.fill) key (List.replicate (pl.spare + 16) pl.fill) pl.spare
+
+def placeArgs (pl : Pl) : Nat → List (List UInt8) → List Murmur.Placed.Slice
+  | _, [] => []
+  | i, k :: ks => placeArg pl i k :: placeArgs pl (i+1) ks
+
+/-- ops on PLACED arguments: the hashing ops run the model of the code on the key in memory (`Murmur.Placed`:
+    unsafe 16-byte loads by address); `rktok <c1> … <cn>` = the Murmur3 token of the routing key of the blob
+    components. Every other op is a function of the argument bytes in the model: the placement word is dropped. -/
+def stepP (pl : Pl) (ws : List String) : String :=
+  match ws with
+  | ["murmur", h] => match parseHex h with
+      | some bs => toString (Murmur.Placed.murmur3H1 (placeArg pl 1 bs)).toInt
+      | none => "bad-op"
+  | ["hlessm", a, b] => match parseHex a, parseHex b with
+      | some x, some y => toString (decide ((Murmur.Placed.murmur3H1 (placeArg pl 1 x)).toInt
+                                            < (Murmur.Placed.murmur3H1 (placeArg pl 2 y)).toInt))
+      | _, _ => "bad-op"
+  | "rktok" :: c :: cs => match (c :: cs).mapM parseHex with
+      | some l => toString (Murmur.Placed.routingToken (placeArgs pl 1 l)).toInt
+      | none => "bad-op"
+  | _ => stepU ws
+
+def step (_ : Unit) (ws : List String) : Unit × String :=
+  ((), match ws.getLast? with
+  | some w =>
+    if w.startsWith "@" then
+      match parsePl w with
+      | some pl => stepP pl ws.dropLast
+      | none => "bad-op"
+    else match ws with
+      | "rktok" :: c :: cs => match (c :: cs).mapM parseHex with
+          | some l => toString (Murmur.murmur3H1 (Token.routingKey l)).toInt
+          | none => "bad-op"
+      | _ => stepU ws
+  | none => "bad-op")
 
 def init : Unit := ()
 end Driver.C09
